@@ -73,7 +73,7 @@ Definition default_ok (input output : gparam) : bool :=
     match g_default output with
     | None => true
     | Some w => d_none_like w
-                || match zero_of_typ (fget (g_typ input)) with Some z => dval_eqb w z | None => false end
+                || match zero_of_typ (fget (g_typ input)) with Some z => dval_eqb z w | None => false end
     end
   end.
 
